@@ -389,10 +389,25 @@ class RefTrace(object):
                 st['b'] = sock.n_send
                 tr.bufw = False      # every flush in the handshake code is followed by buffer_writes = False
 
+        inner_fa = getattr(conn.sock, 'flush_async', None)     # generator variant of flush (newer trees)
+
+        def flush_async():
+            pre()
+            st = dict(kind='flush', a=sock.n_send)
+            tr.steps.append(st)
+            try:
+                for r in inner_fa():
+                    yield r
+            finally:
+                st['b'] = sock.n_send
+                tr.bufw = False
+
         def done(resumed):
             pre()
             tr.steps.append(dict(kind='done'))
             return inner_done(resumed)
+        if inner_fa is not None:
+            conn.sock.flush_async = flush_async
         conn._getMsg = get
         conn._recordLayer.sendRecord = send
         conn.sock.flush = flush
